@@ -38,7 +38,7 @@ func c11reach(prog []GenPkg, req map[string]bool) map[string]bool {
 
 // v1 history: AddDir the first group, FindTypes, AddDirectoryTo the rest (or AddDir everything, then FindTypes)
 func c11history(groups [][]string, early bool) (string, []string, []string, error) {
-	var problems []string
+	var problems, soFar []string
 	b := parser.New()
 	var u types.Universe
 	var err error
@@ -56,6 +56,13 @@ func c11history(groups [][]string, early bool) (string, []string, []string, erro
 					return "", nil, nil, err
 				}
 			}
+			soFar = append(soFar, grp...)
+			if early {
+				// asked between the loads as well: the list of inputs is what has been requested SO FAR
+				if got, want := b.FindPackages(), sortedCopy(soFar); !reflect.DeepEqual(got, want) {
+					problems = append(problems, fmt.Sprintf("FindPackages after %v: %v", want, got))
+				}
+			}
 		} else {
 			for _, pk := range u {
 				for k, t := range pk.Types {
@@ -70,6 +77,10 @@ func c11history(groups [][]string, early bool) (string, []string, []string, erro
 				if _, err = b.AddDirectoryTo(d, &u); err != nil {
 					return "", nil, nil, err
 				}
+			}
+			soFar = append(soFar, grp...)
+			if got, want := b.FindPackages(), sortedCopy(soFar); !reflect.DeepEqual(got, want) {
+				problems = append(problems, fmt.Sprintf("FindPackages after %v: %v", want, got))
 			}
 			for nm, t := range held {
 				if u.Type(nm) != t {
@@ -92,6 +103,12 @@ func c11history(groups [][]string, early bool) (string, []string, []string, erro
 	}
 	c11lastDigest = commentDigest(u, reqSet)
 	return dumpUniverse(u), b.FindPackages(), problems, nil
+}
+
+func sortedCopy(l []string) []string {
+	out := append([]string{}, l...)
+	sort.Strings(out)
+	return out
 }
 
 func c11(g *Gen) {
